@@ -58,7 +58,23 @@ def low_programs(tier):
                     yield case
 
 
+HIGH_ORG = 0xFFD0
+HIGHTAGS = ["inh1", "fcb1", "ext.lbl", "ext.lbl+1", "imm.lbl+1", "pcr.lbl+2", "idx.lbl+1", "extind.lbl+1", "bra.lbl+1", "pcr.lbl"]
+
+
+def high_programs(tier):
+    """programs for the top of memory: label+n may reach $FFFF and wrap past it"""
+    for n in (1, 2):
+        for tup in itertools.product(HIGHTAGS, repeat=n):
+            for case in c02.programs_for(tup, ("all",)):
+                if "UNDEF" not in case["bind"]:
+                    yield case
+
+
 def cases(tier, seed):
+    for case in high_programs(tier):
+        for d in range(1, 0x30):
+            yield {"tags": case["tags"], "bind": case["bind"], "tr": "shift", "arg": d, "org": HIGH_ORG}
     for case in low_programs(tier):
         for d in LOW_SHIFTS:
             yield {"tags": case["tags"], "bind": case["bind"], "tr": "shift", "arg": d, "org": LOW_ORG}
@@ -251,7 +267,7 @@ def check_case(case):
                      "input": dict(case, base=lines0)})
 
     org = case.get("org", BASE_ORG)
-    if org != BASE_ORG and any(abs_statement(case, i, lines0) for i in range(len(lines0))):
+    if org == LOW_ORG and any(abs_statement(case, i, lines0) for i in range(len(lines0))):
         # below $100 the width of an absolute reference (direct / 5-bit / 8-bit offset) legitimately depends on the label's value
         return res
     base = [" ORG ${:04X}".format(org)] + lines0
@@ -382,7 +398,7 @@ def describe(tier):
                     ("every 3-statement sequence" if tier == "thorough" else "3-statement sequences over a 9-template slice") +
                     ", README example, cross-reference program, interacting-PCR program, and families of two and three mutually dependent label,PCR "
                     "statements (every reference pattern over 5-6 labels x gaps around the 8/16-bit limit) with PC-relative / branch statements appended; transformations: origin shifts {} from $2000 and shifts -1 +1 +$4F from origin $0001 (programs without absolute label references, wholly below $100, plus every 1-3 statement program over 12 relative-reference templates label / label+n / label-n where label-n may fall below 0); 4 label "
-                    "a two-region program (code at $0E00+D, variables after a second ORG at 0+D / 1+D / $10+D) under 5 shifts; bijections onto names incl. SU XS PCX DPY a1 PCRL CCX; formats {}; every non-ORG statement template of C02 appended".format(SHIFTS, FORMATS),
+                    "1-2 statement programs over label / label+n templates based at $FFD0 and moved up byte by byte until they touch $FFFF; a two-region program (code at $0E00+D, variables after a second ORG at 0+D / 1+D / $10+D) under 5 shifts; bijections onto names incl. SU XS PCX DPY a1 PCRL CCX; formats {}; every non-ORG statement template of C02 appended".format(SHIFTS, FORMATS),
         "bound": "one transformation per run (the menu is applied exhaustively to every base program)",
         "oracle": "shift: identical sizes, every byte identical except the 16-bit operand of statements that reference an own label absolutely, which "
                   "moves by exactly D; symbols +D (EQU unchanged); rename/format: identical image, addresses, symbol values (under the bijection); "
